@@ -31,11 +31,17 @@ ASSUMPTIONS = [
     "the memory side takes write data no earlier than 2 cycles after accepting the command (the core's minimum is larger: "
     "command FIFO + buffer + write_latency+1); the read-modify-write path relies on it",
     "per configuration (buffer depths, base address, with / without read-modify-write)",
+    "reservation lemmas (AXI2NativeW.reservation, AXI2NativeR.reservation): proved on the W / R path modules taken alone "
+    "(cmd_grant free, i.e. any arbitration), without the read-modify-write FSM; environment fact used by the read lemma: "
+    "the memory side returns read data only for outstanding reads (guaranteed by the core, C01); the write-data-on-offer "
+    "bound of 2 cycles is why the bounded clauses assume the memory side strobes write data >= 2 cycles after the command",
     "burst-to-beat address generation is PROVED (induction, every length 1..256, size, type, start address) under the AXI4 "
     "rules as preconditions: WRAP bursts of 2/4/8/16 beats with aligned start, no burst crossing a 4 KB boundary (beyond "
     "it the generator's 13-bit signed offset register overflows), burst payload held until its last beat",
 ]
-EXPLANATION = "bounded contract check on the real AXI bridge with an AXI4 master model and the NativePortSpec environment; burst->beat generator proved by induction"
+EXPLANATION = ("bounded contract check on the real AXI bridge with an AXI4 master model and the NativePortSpec environment; "
+               "burst->beat generator, write buffer reservation and read buffer reservation (incl. ID queue occupancy) proved by "
+               "induction on the real W / R path modules")
 
 AW_, DW_, IDW = 6, 16, 1
 
@@ -51,6 +57,102 @@ class AxiHarness(Module):
                                                     r_buffer_depth=cfg.get("rdepth", 2), base_address=cfg.get("base", 0),
                                                     with_read_modify_write=cfg.get("rmw", False))
         self.WL = cap.of(self.br.write)
+
+
+class AxiWHarness(Module):
+    def __init__(self, cfg):
+        from vc.shims import capture_locals
+        from migen.genlib import fifo as mfifo
+        from litedram.frontend.axi import LiteDRAMAXI2NativeW
+        self.axi = LiteDRAMAXIPort(data_width=DW_, address_width=AW_, id_width=IDW)
+        self.port = LiteDRAMNativePort("both", AW_ - 1, DW_)
+        with capture_locals(LiteDRAMAXI2NativeW.__init__, mfifo.SyncFIFO.__init__) as cap:
+            self.submodules.w = LiteDRAMAXI2NativeW(self.axi, self.port, buffer_depth=cfg.get("wdepth", 2),
+                                                    base_address=cfg.get("base", 0), with_read_modify_write=False)
+        self.cap, self.L = cap, cap.of(self.w)
+
+
+def w_reservation_contract(cfg):
+    """lemma (unbounded, induction on the real LiteDRAMAXI2NativeW incl. its real buffered data FIFO): the write path's
+    reservation counter never exceeds the number of buffered data beats, hence a native write command is only issued when
+    its data beat is already buffered, the data of every issued command is on offer whenever the memory side may take it
+    (M1 of the native-port contract) and no data beat is handed over ahead of its command."""
+    from .fifo_lemma import fifo_parts, add_fifo_invariants, inner_sync_fifo
+    h = AxiWHarness(cfg)
+    axi, port, L = h.axi, h.port, h.L
+    free = [axi.aw.valid, axi.aw.addr, axi.aw.burst, axi.aw.len, axi.aw.size, axi.aw.id, axi.w.valid, axi.w.data,
+            axi.w.strb, axi.w.last, axi.b.ready, port.cmd.ready, port.wdata.ready, h.w.cmd_grant]
+    c = Contract("AXI2NativeW.reservation", h, free, cfg=cfg)
+    wb, wbl = L["w_buffer"], L["w_buffer_level"]
+    inner, wrapper = inner_sync_fifo(wb)
+    P = fifo_parts(c, inner, h.cap)
+    add_fifo_invariants(c, P, "w_buffer")
+    W = max(len(wb.level), len(wbl)) + 2
+    cmdacc = lambda f: And(f.b(port.cmd.valid), f.b(port.cmd.ready))
+    dacc = lambda f: And(f.b(port.wdata.valid), f.b(port.wdata.ready))
+    # ghost: native write commands accepted minus data beats handed over
+    c.ghost("owed", W, 0, lambda f: f.g.owed + If_(cmdacc(f), BV(1, W), BV(0, W)) - If_(dacc(f), BV(1, W), BV(0, W)))
+    c.invariant("reservation_counter_is_commands_minus_data_and_within_the_buffered_beats", lambda f: And(
+        zext(f(wbl), W) == f.g.owed, ULE(zext(f(wbl), W), zext(f(wb.level), W)),
+        ULE(zext(f(wb.level), W), BV(cfg.get("wdepth", 2) + 1, W)),
+        z3.BoolVal(True)))
+    c.ensures("every_native_command_is_a_write_issued_only_when_its_data_beat_is_buffered", lambda f: Implies(
+        f.b(port.cmd.valid), And(f.b(port.cmd.we), ULT(zext(f(wbl), W), zext(f(wb.level), W)))))
+    c.ensures("data_of_every_issued_command_is_buffered_and_offered_as_soon_as_it_heads_the_buffer", lambda f: And(
+        ULE(f.g.owed, zext(f(wb.level), W)),
+        f.b(port.wdata.valid) == And(f.b(wb.source.valid), Or(f.g.owed != 0, cmdacc(f)))))
+    c.response("data_of_an_issued_command_on_offer_within_2_cycles", lambda f: f.g.owed != 0,
+               lambda f: f.b(port.wdata.valid), 2)
+    c.ensures("no_data_beat_ahead_of_its_command", lambda f: Implies(dacc(f), Or(f.g.owed != 0, cmdacc(f))))
+    c.cover("two_commands_owing_data", lambda f: f.g.owed == 2, within=10)
+    return c
+
+
+class AxiRHarness(Module):
+    def __init__(self, cfg):
+        from vc.shims import capture_locals
+        from migen.genlib import fifo as mfifo
+        from litedram.frontend.axi import LiteDRAMAXI2NativeR
+        self.axi = LiteDRAMAXIPort(data_width=DW_, address_width=AW_, id_width=IDW)
+        self.port = LiteDRAMNativePort("both", AW_ - 1, DW_)
+        with capture_locals(LiteDRAMAXI2NativeR.__init__, mfifo.SyncFIFO.__init__) as cap:
+            self.submodules.r = LiteDRAMAXI2NativeR(self.axi, self.port, buffer_depth=cfg.get("rdepth", 2),
+                                                    base_address=cfg.get("base", 0), with_read_modify_write=False)
+        self.cap, self.L = cap, cap.of(self.r)
+
+
+def r_reservation_contract(cfg):
+    """lemma (unbounded, induction on the real LiteDRAMAXI2NativeR incl. its real buffered data FIFO and ID FIFO): the
+    reservation counter equals reads in flight + buffered beats and never exceeds the buffer depth, so read data returned
+    by the memory side (which does not wait for ready) always finds room, the ID FIFO holds exactly one entry per
+    reserved beat (never overflows when a read command is issued, never empty when an R beat is offered)."""
+    from .fifo_lemma import fifo_parts, add_fifo_invariants, inner_sync_fifo
+    h = AxiRHarness(cfg)
+    axi, port, L = h.axi, h.port, h.L
+    depth = cfg.get("rdepth", 2)
+    free = [axi.ar.valid, axi.ar.addr, axi.ar.burst, axi.ar.len, axi.ar.size, axi.ar.id, axi.r.ready,
+            port.cmd.ready, port.rdata.valid, port.rdata.data, h.r.cmd_grant]
+    c = Contract("AXI2NativeR.reservation", h, free, cfg=cfg)
+    rb, rbl, idb = L["r_buffer"], L["r_buffer_level"], L["id_buffer"]
+    inner, _ = inner_sync_fifo(rb)
+    add_fifo_invariants(c, fifo_parts(c, inner, h.cap), "r_buffer")
+    idin, _ = inner_sync_fifo(idb)
+    add_fifo_invariants(c, fifo_parts(c, idin, h.cap), "id_buffer")
+    W = max(len(rb.level), len(rbl), len(idb.level)) + 2
+    cmdacc = lambda f: And(f.b(port.cmd.valid), f.b(port.cmd.ready))
+    one = lambda b: If_(b, BV(1, W), BV(0, W))
+    c.ghost("infl", W, 0, lambda f: f.g.infl + one(cmdacc(f)) - one(f.b(port.rdata.valid)))
+    c.assume("memory_answers_only_outstanding_reads", lambda f: Implies(f.b(port.rdata.valid), f.g.infl != 0))
+    c.invariant("reserved_beats_are_in_flight_plus_buffered_and_within_depth", lambda f: And(
+        zext(f(rbl), W) == f.g.infl + zext(f(rb.level), W), ULE(zext(f(rbl), W), BV(depth, W)),
+        ULE(f.g.infl, BV(depth, W)), ULE(zext(f(rb.level), W), BV(depth, W)),
+        zext(f(idb.level), W) == zext(f(rbl), W)))
+    c.ensures("every_native_command_is_a_read", lambda f: Implies(f.b(port.cmd.valid), Not(f.b(port.cmd.we))))
+    c.ensures("returned_read_data_always_finds_room", lambda f: Implies(f.b(port.rdata.valid), f.b(port.rdata.ready)))
+    c.ensures("id_queue_has_room_for_every_issued_read_and_an_entry_for_every_r_beat", lambda f: And(
+        Implies(f.b(idb.sink.valid), f.b(idb.sink.ready)), Implies(f.b(axi.r.valid), f.b(idb.source.valid))))
+    c.cover("buffer_fully_reserved", lambda f: And(f(rbl) == depth, f.g.infl == depth), within=3 * depth + 6)
+    return c
 
 
 def beat_word(addr, burst, i):
@@ -400,5 +502,9 @@ def tasks(tier):
         modes = ["bounded", "difftest"] + (["cover"] if sc == "single" else [])
         out.append(dict(fn="axi_contract", cfg=cfg, modes=modes, depth=d, weight=30, timeout_ms=2400000,
                         difftest_cycles=40, oneshot=one, search_depth=d))
+    for cfg in [dict(wdepth=2), dict(wdepth=4), dict(wdepth=16), dict(wdepth=4, base=32)]:
+        out.append(dict(fn="w_reservation_contract", cfg=cfg, modes=["inductive", "response", "cover", "difftest"], weight=2, difftest_cycles=100))
+    for cfg in [dict(rdepth=2), dict(rdepth=4), dict(rdepth=8), dict(rdepth=4, base=32)]:
+        out.append(dict(fn="r_reservation_contract", cfg=cfg, modes=["inductive", "cover", "difftest"], weight=2, difftest_cycles=100))
     out.append(dict(kind="custom", fn="native_rmw_task", cfg={}, weight=5))
     return out
